@@ -103,10 +103,12 @@ func (c *ctx) checkAdvance(f *family, part string, before, after tracked, sps []
 		return
 	}
 	c.r.Class("impl-advanced")
+	// states the reference lets the client be in before header i (it may always decline a header)
 	allowed := []tracked{before}
+	var reach [][]tracked
 	for i, sp := range sps {
-		n := len(allowed)
-		for _, cur := range allowed[:n] {
+		reach = append(reach, append([]tracked{}, allowed...))
+		for _, cur := range reach[i] {
 			if ok, _ := f.refOK(sp, cur, true); ok {
 				allowed = append(allowed, f.apply(sp, hashes[i]))
 			}
@@ -117,13 +119,11 @@ func (c *ctx) checkAdvance(f *family, part string, before, after tracked, sps []
 			return
 		}
 	}
+	// name the reason: the header the client moved to, judged against the most advanced state it could be in then
 	why := "unjustified-state"
 	for i := len(sps) - 1; i >= 0; i-- {
 		if sameTracked(f.apply(sps[i], hashes[i]), after) {
-			_, why = f.refOK(sps[i], before, true)
-			if why == "" {
-				why = "unjustified-after-earlier-header"
-			}
+			_, why = f.refOK(sps[i], reach[i][len(reach[i])-1], true)
 			break
 		}
 	}
